@@ -11,8 +11,9 @@ from seed_eval import ALL, evaluate  # noqa: E402
 root = Path(sys.argv[1] if len(sys.argv) > 1 else "/tmp/seed")
 out = root / "results"
 out.mkdir(exist_ok=True)
-dirs = sorted(root.glob("C*/_seed/change*")) if (root / "C01").exists() else sorted(root.glob("C*/*"))
-only = set(sys.argv[2].split(",")) if len(sys.argv) > 2 else None
+pat = sys.argv[3] if len(sys.argv) > 3 else "change*"
+dirs = sorted(root.glob(f"C*/_seed/{pat}")) if (root / "C01").exists() else sorted(root.glob("C*/*"))
+only = set(sys.argv[2].split(",")) if len(sys.argv) > 2 and sys.argv[2] else None
 
 
 def one(d: Path):
